@@ -199,8 +199,53 @@ def mesh_coords_strategy(tier):
     return _clip.clip_cases(convs=["ugrid"], mesh_coords_as="coord")
 
 
+def edge_dimension_only_strategy(tier):
+    from hypothesis import strategies as st
+
+    @st.composite
+    def build(draw):
+        enc = draw(S.ugrid_encoding(supply=draw(st.sampled_from([[], ["face_face"]])), coords_as="var"))
+        enc["edge_dim_attr"] = True
+        enc["edge_coords"] = True
+        case = draw(_clip.clip_cases(convs=["ugrid"], mesh_coords_as="var"))
+        spec = case["spec"]
+        spec["geom"]["enc"] = enc
+        spec["geom"]["edges"] = specs.mesh_edges(spec["geom"]["faces"])
+        spec["vars"] = [v for v in spec["vars"] if v["kind"] != "edge"] + [
+            {"name": "on_edges", "kind": "edge", "dims": ["@0"] + list(spec["extra"])[:1],
+             "dtype": "f8", "fill": None}]
+        return case
+    return build()
+
+
+def integer_fill_strategy(tier):
+    """Grid conventions, raw (undecoded) integer variables whose declared fill value is one of
+    the awkward ones (0, -1, the type's maximum), multi-part geometries so that the selection
+    does not fill its crop window."""
+    from hypothesis import strategies as st
+    from vf.props import c07
+
+    @st.composite
+    def build(draw):
+        case = draw(_clip.clip_cases(convs=["cf1d", "cf2d", "shoc_simple", "arakawa", "shoc_standard"]))
+        spec = case["spec"]
+        spec["mode"] = "raw"
+        for var in spec["vars"]:
+            if var["kind"] is not None:
+                var["dtype"] = draw(st.sampled_from(["i4", "i2"]))
+                var["fill"] = [draw(st.sampled_from(["_FillValue", "missing_value"])),
+                               draw(st.sampled_from([0, 0, -1, 32767]))]
+                var.pop("nan", None)
+        case["geom"] = {"type": "multi", "parts": [draw(c07.SIMPLE_GEOM), draw(c07.SIMPLE_GEOM)]}
+        return case
+    return build()
+
+
 SUBS = [
     Sub("clip", strategy, check_case, quick=150, thorough=600),
+    Sub("integer_fill_values", integer_fill_strategy, check_case, quick=40, thorough=200),
+    Sub("mesh_edge_dimension_without_tables", edge_dimension_only_strategy, check_case,
+        quick=20, thorough=100),
     Sub("clip_meshes", mesh_strategy, check_case, quick=60, thorough=300),
     Sub("mesh_coords", mesh_coords_strategy, check_case, quick=30, thorough=150),
 ]
